@@ -32,7 +32,7 @@ def harnesses(tier, findings):
 
 META = dict(
     level="model_checking",
-    bounds=dict(quick="camera fault at every frame index < N<=2; storage fault at every append index; sink death at any boundary with the ring 1 frame deep; whole runtime: fault in acquisition 1 (camera or storage, symbolic index), stop or abort, then a fault-free acquisition",
+    bounds=dict(quick="camera fault at every frame index < N<=2; storage fault at every append index; sink death at any boundary with the ring 1 frame deep; with the averaging filter (k=2) between source and sink: sink death at the 0th..3rd scheduling boundary for 4 arrival patterns of 2-3 frames; whole runtime: fault in acquisition 1 (camera or storage, symbolic index), stop or abort, then a fault-free acquisition",
                 thorough="N<=3, ring 2 frames"),
     outside="as C07", assumptions=["as C07"],
 )
